@@ -1052,6 +1052,7 @@ func ruleEffect3(c *Ctx) {
 		}
 		return true, "result of " + c.calleeName(ce) + ", which creates it"
 	}
+	depthFresh := 0
 	freshEnv = func(body ast.Node, e ast.Expr) (bool, string) {
 		e = unparen(e)
 		if ce, ok := e.(*ast.CallExpr); ok {
@@ -1092,6 +1093,19 @@ func ruleEffect3(c *Ctx) {
 			if u, ok := d.(*ast.UnaryExpr); ok && u.Op == token.AND {
 				if _, isLit := u.X.(*ast.CompositeLit); isLit {
 					continue
+				}
+			}
+			if id, ok := d.(*ast.Ident); ok {
+				if id.Name == "nil" {
+					continue // the error path of a conversion: no environment at all
+				}
+				if c.objOf(id) != o && depthFresh < 4 {
+					depthFresh++
+					ok2, _ := freshEnv(body, id)
+					depthFresh--
+					if ok2 {
+						continue
+					}
 				}
 			}
 			ce, ok := d.(*ast.CallExpr)
